@@ -84,6 +84,11 @@ CHECKS = {
    "For nine mechanism drivers (introspection, generic with session lifespan, jwt key cache, jwt finalizer, client credentials as finalizer and as endpoint auth strategy, RFC 7234 HTTP cache, remote authorizer and generic contextualizer overrides) every cell of remaining lifetime x configured TTL (prototype and rule override) x Cache-Control/Expires/Date combination is explored by BFS over histories of request and clock advances (menu derived from the cell) to depth 3 + directed probes (quick) / depth 5 (thorough); every Set must respect 0 < ttl <= min(configured, remaining - leeway), nothing may be answered without a remote call past its validity, TTL 0 must disable caching.",
    "The real Redis client is represented by a reference cache; Date-derived response age and the undocumented 10 s margins are counted don't-cares; clock granularity 1 s.",
    "DESIGN.md 4 C10"),
+ "C19": ("fault_enumeration", "enum",
+   "exhaustive fault enumeration: every truncation offset and every single-block removal of valid and unsupported PEM bundles through the real loaders and reload callbacks, a type-confusion grammar and every truncation offset over rule-set documents and remote responses, and menus of malformed requests through the assembled services; each case under recover at the real entry point, unrecoverable crashes observed in child processes",
+   "Key and trust stores (every supported and several unsupported shapes, issuer cycles) truncated at every byte offset and with every block removed are fed to jwt signer, TLS key store, http message signatures and trust store construction and OnChanged; rule-set documents with every node replaced by each of 8 foreign values, keys removed/duplicated and every truncation offset go through ParseRules, the rule-set processor and the file_system provider callback; JWKS/metadata/introspection/identity/authorization/contextualizer responses through the real mechanisms; malformed HTTP and Envoy requests through the assembled services incl. recovery layers; after every case the previous state must still answer and a following valid change must be applied.",
+   "Byte contents other than truncations, block removals and the grammar are not explored (that would be fuzzing); resource exhaustion is out of scope; fsnotify itself is replaced by calling the registered listeners (30 cases are confirmed with the real watcher in a process of their own).",
+   "DESIGN.md 4 C19"),
 }
 
 NOT_YET = {
